@@ -3,7 +3,7 @@ import itertools
 import random
 
 from common import Recorder, guarded, main
-from gen import specs1, specs, build_fiber, build_tensor, spec_key, random_spec
+from gen import specs1, specs, build_fiber, build_tensor, spec_key, random_spec, scale_spec
 from spec.oracle import raw, is_fiber, is_box, unbox, content
 
 from fibertree import Fiber, Tensor, Payload
@@ -261,9 +261,45 @@ def run(tier, seed):
         sdepth = rnd.choice([0, 1, 2])
         rec.case("tensor", (spec_key(spec), kind, repr(arg), sdepth, 3))
         check_tensor(rec, "tensor", 3, 3, spec, kind, arg, sdepth)
+    # at scale: partitions holding many elements (dense fibers, large steps), then seeded random fibers far outside the enumerated scope
+    for nn in (200, 330):
+        spec = {c: (0 if c % 17 == 3 else 1) for c in range(nn) if c % 23 != 5}
+        for step in (70, 100):
+            for relative in (False, True):
+                for pre, post in ((0, 0), (2, 1)):
+                    rec.case("scale", ("dense", nn, step, relative, pre, post))
+                    check_fiber(rec, "scale", nn, spec, None, "uniform", step, pre, post, relative)
+        for sizes in ([80, 80], [70, 1, 90]):
+            rec.case("scale", ("dense-unequal", nn, tuple(sizes)))
+            check_fiber(rec, "scale", nn, spec, None, "unequal", sizes, 0, 0, True)
+        rec.case("scale", ("dense-equal", nn))
+        check_fiber(rec, "scale", nn, spec, None, "equal", 75, 0, 0, True)
+        rec.case("scale", ("dense-nonuniform", nn))
+        check_fiber(rec, "scale", nn, spec, None, "nonuniform", [0, 80, 170], 0, 1, True)
+    for _ in range(100 if tier == "quick" else 1000):
+        if rnd.random() < 0.5:      # dense: partitions with many elements
+            nn = rnd.choice([90, 200, 330])
+            spec = {c: rnd.choice([1, 1, 0]) for c in range(nn) if rnd.random() < 0.95}
+        else:
+            spec, nn = scale_spec(rnd, vals=(0, 1), count=rnd.choice([12, 40, 90]))
+        relative = rnd.random() < 0.6
+        pre, post = rnd.choice([(0, 0), (0, 0), (1, 0), (0, 2), (3, 3)])
+        active = rnd.choice([None, None, (rnd.randrange(nn // 2), nn // 2 + rnd.randrange(nn // 2 + 1))])
+        kind = rnd.choice(["uniform", "uniform", "equal", "nonuniform", "unequal"])
+        if kind == "uniform":
+            arg = rnd.choice([7, 33, 70, 70, 100, 100, nn])
+        elif kind == "equal":
+            arg = rnd.choice([5, 20, 66, 80])
+        elif kind == "nonuniform":
+            arg = sorted(set([0] + [rnd.randrange(nn) for _q in range(rnd.randint(1, 14))]))
+        else:
+            arg = [rnd.randint(1, 30) for _q in range(rnd.randint(1, 12))]
+        rec.case("scale", (spec_key(spec), repr(active), relative, pre, post, kind, repr(arg)))
+        check_fiber(rec, "scale", nn, spec, active, kind, arg, pre, post, relative)
     return rec.result("every fiber over %d coordinates with payloads {absent,0,1} x active range x relativeCoords x halo (pre,post) x every step / "
                       "boundary list / size list; division shorthands; nested re-splits; tensor-level splits at every depth of depth-2/3 tensors with "
-                      "empty sub-fibers; expected partitions recomputed from the element list by the statement's interval rule" % n)
+                      "empty sub-fibers; plus seeded random fibers at scale (up to 330 coordinates, partitions of 60+ elements); "
+                      "expected partitions recomputed from the element list by the statement's interval rule" % n)
 
 
 def replay(case):
